@@ -19,3 +19,8 @@ open Bec2Verif.C17
 #print axioms mulAdd_total
 #print axioms curveOK_23
 #print axioms two_ne_zero_of_odd
+#print axioms p256_field_prime
+#print axioms p256_order_prime
+#print axioms p256_curveOK
+#print axioms p256_generator_order
+#print axioms p256_generator_mul
